@@ -195,6 +195,7 @@ def fterm(v):
 B_XOR = z3.Function('b_xor', z3.IntSort(), z3.IntSort(), z3.IntSort())
 B_AND = z3.Function('b_and', z3.IntSort(), z3.IntSort(), z3.IntSort())
 B_OR = z3.Function('b_or', z3.IntSort(), z3.IntSort(), z3.IntSort())
+B_SHL = z3.Function('b_shl', z3.IntSort(), z3.IntSort(), z3.IntSort())
 
 # ---- specification folds -------------------------------------------------------------------------
 ArrS = z3.ArraySort(z3.IntSort(), z3.IntSort())
